@@ -141,7 +141,15 @@ func NewHost(cfg *Config) *Host {
 	for i := 0; i < cfg.NAccounts; i++ {
 		addr := sdk.AccAddress(acctAddr(i))
 		accs = append(accs, authtypes.NewBaseAccount(addr, nil, uint64(i), 0))
-		if cfg.Balances[i] > 0 {
+		if cfg.WhaleBalance != "" && i == cfg.WhaleAccount {
+			amt, ok := sdk.NewIntFromString(cfg.WhaleBalance)
+			if !ok {
+				panic("bad whale balance")
+			}
+			c := sdk.NewCoins(sdk.NewCoin("stake", amt))
+			bals = append(bals, banktypes.Balance{Address: addr, Coins: c})
+			total = total.Add(c...)
+		} else if cfg.Balances[i] > 0 {
 			c := sdk.NewCoins(sdk.NewCoin("stake", sdk.NewInt(cfg.Balances[i])))
 			bals = append(bals, banktypes.Balance{Address: addr, Coins: c})
 			total = total.Add(c...)
